@@ -508,6 +508,7 @@ def run_class(spec, all_styles, report, only=None):
         cls = ref_enum.build_class(spec)
     except Exception as e:  # noqa: BLE001
         report.skip(f"class definition rejected by the stdlib enum module ({type(e).__name__})")
+        report.count("class_definitions_rejected_by_stdlib", 1)
         return
     model = ref_enum.Model(spec, cls)
     report.count("classes", 1)
@@ -518,6 +519,9 @@ def run_class(spec, all_styles, report, only=None):
     if model.alias:
         report.count("classes_with_aliases", 1)
     foreign = _foreign_names(model)
+    if not model.is_flag and ref_enum.tp_for(model) is None:
+        report.skip("enum_by_value: no tp of the unambiguous documented set (int, str, float, bool, None, Tuple[int, int], "
+                    "Union[int, str], Optional[int|str]) covers all member values")
     for prog in programs_for(model, all_styles):
         if only is not None and prog != only:
             continue
@@ -575,6 +579,7 @@ def extra_evidence(report, tier):
     c = report.counters
     return {
         "classes": c["classes"],
+        "class_definitions_rejected_by_stdlib": c["class_definitions_rejected_by_stdlib"],
         "classes_by_base": {k.split(":", 1)[1]: v for k, v in sorted(c.items()) if k.startswith("classes:")},
         "programs": c["programs"],
         "programs_by_provider": {k.split(":", 1)[1]: v for k, v in sorted(c.items()) if k.startswith("programs:")},
